@@ -78,6 +78,10 @@ def listInsert (xs : List α) (i : Int) (v : α) : List α :=
   let k := clampIdx xs.length i
   xs.take k ++ v :: xs.drop k
 
+/-- `xs.insert(i, v)`: the index is converted to a C `Py_ssize_t` first -/
+def listInsert? (xs : List α) (i : Int) (v : α) : Except Err (List α) :=
+  if ssizeOk i then .ok (listInsert xs i v) else .error .overflowError
+
 /-- `xs * n` -/
 def repeat_ (xs : List α) (n : Int) : List α := (List.replicate n.toNat xs).flatten
 
@@ -98,11 +102,36 @@ def enumerate (xs : List α) : List (Int × α) := enumFrom 0 xs
 /-- `zip(xs, ys)` -/
 def zip (xs : List α) (ys : List β) : List (α × β) := List.zip xs ys
 
+/-- a bound of `itertools.islice`: `None` or `0 <= x <= sys.maxsize` -/
+def isliceOk (i : Int) : Bool := decide (0 ≤ i ∧ i < (2 : Int) ^ 63)
+
+def isliceOkOpt : Option Int → Bool
+  | none => true
+  | some i => isliceOk i
+
+/-- marker for "the two-argument form `islice(xs, stop)`" in the third argument position -/
+def isliceStopOnly : Option Int := some (-1)
+
+/-- `itertools.islice(xs, a, b)`; with `b = isliceStopOnly` it is `islice(xs, a)` i.e. stop = a.  The bounds are
+    validated when the object is built: ValueError. -/
+def islice (xs : List α) (a b : Option Int) : Except Err (List α) :=
+  if b = isliceStopOnly then
+    (if isliceOkOpt a then .ok (match a with | none => xs | some n => xs.take n.toNat) else .error .valueError)
+  else if isliceOkOpt a && isliceOkOpt b then
+    .ok (((match b with | none => xs | some n => xs.take n.toNat)).drop (match a with | none => 0 | some n => n.toNat))
+  else .error .valueError
+
 /-- `reversed(xs)` -/
 def reversed (xs : List α) : List α := xs.reverse
 
 /-- `x in xs` with `==` -/
 def contains [BEq α] (xs : List α) (x : α) : Bool := xs.any fun y => y == x
+
+/-- widest code point of a string (decides the storage class CPython picks) -/
+def maxCp (s : List Char) : Nat := s.foldl (fun m c => max m c.toNat) 0
+
+/-- a limit / count argument where a negative number means "unlimited" -/
+def limitOf (n : Int) : Option Nat := if n < 0 then none else some n.toNat
 
 /-! ## nullable -/
 
